@@ -16679,6 +16679,8 @@ HFSM2_CONSTEXPR(14)
 void
 RV_<G_<NFT_, TC_, Manual, TRO_ HFSM2_IF_UTILITY_THEORY(, TR_, TU_, TG_), NSL_ HFSM2_IF_PLANS(, NTC_), TP_>, TA_>::loadEnter(ReadStream& stream) noexcept {
 	HFSM2_ASSERT(_core.registry.empty());
+
+	ReadStream resumables{stream};
 	_apex.deepLoadRequested(_core.registry, stream);
 
 	HFSM2_ASSERT(_core.requests.empty());
@@ -16702,6 +16704,10 @@ RV_<G_<NFT_, TC_, Manual, TRO_ HFSM2_IF_UTILITY_THEORY(, TR_, TU_, TG_), NSL_ HF
 	PlanControl control{_core, emptyTransitions};
 
 	_apex.deepEnter(control);
+
+	// entering a sub-state clears a resumable mark naming it, restore the loaded ones
+	_apex.deepLoadRequested(_core.registry, resumables);
+	_core.registry.clearRequests();
 
 	HFSM2_IF_STRUCTURE_REPORT(udpateActivity());
 }
